@@ -14,6 +14,8 @@
  * is free (the spin/usleep loop of Q_MUTEX_ENTER is not executed).
  *
  * line:   <kind> init=<n> [range=<r>] [opt=<o>|unique] [max=<n>] t0=<op,op,...> t1=<...> [t2=<...>] sched=<c.c.c|->
+ *         big=1: string values are 300 bytes long ("v<n>" + padding, printed as "v<n>" when intact, as
+ *         "corrupt(..)" otherwise): a copy made from freed or half-replaced memory shows up
  *         ints=1: queue/stack pre-filled with pushint(100+i); use pushint/popint/getint (not mixed with strings)
  *         max=<n>: list/queue/stack only -- setsize(n) after creating and pre-filling the container
  *         (add/push beyond the limit must fail with ENOBUFS); opt=unique = QLISTTBL_UNIQUE
@@ -127,9 +129,32 @@ static int ints;                      /* queue/stack: elements are int64 (pushin
 
 static void res(char *out, const char *fmt, ...) {
     va_list ap; va_start(ap, fmt); vsnprintf(out, 256, fmt, ap); va_end(ap);
+    /* results go into a line protocol: bytes of a copy taken from freed memory must not break it */
+    for (unsigned char *q = (unsigned char *) out; *q; q++) if (*q < 0x21 || *q > 0x7e || *q == ';') *q = '?';
 }
 static void kstr(long k, char *b) { snprintf(b, 16, "k%02ld", k); }
-static void vstr(long v, char *b) { snprintf(b, 16, "v%ld", v); }
+#define BIG 300
+#define VB 320
+static int big;                      /* values are "v<n>" padded with 'x' to BIG characters */
+static void vstr(long v, char *b) {
+    int n = snprintf(b, VB, "v%ld", v);
+    if (big) { memset(b + n, 'x', BIG - n); b[BIG] = 0; }
+}
+/* a value as it is printed: with big=1 the padding is checked and stripped */
+static const char *canon(const char *p, char *buf) {
+    if (!big) return p;
+    size_t l = strnlen(p, BIG + 8);
+    size_t i = 1;
+    if (l == BIG && p[0] == 'v') {
+        while (i < l && p[i] >= '0' && p[i] <= '9') i++;
+        size_t j = i;
+        while (j < l && p[j] == 'x') j++;
+        if (i > 1 && j == l) { snprintf(buf, 64, "%.*s", (int) i, p); return buf; }
+    }
+    snprintf(buf, 64, "corrupt(len=%zu):%.12s", l, p);
+    for (char *q = buf; *q; q++) if (*q <= ' ' || *q == ';' || *q == ':' && q > buf + 16 || *q == ',') *q = '?';
+    return buf;
+}
 
 static void hexout(char *out, const void *p, size_t n, size_t reported) {
     /* "size:hex" -- the reported size and the bytes actually present (bounded by the block size) */
@@ -143,7 +168,7 @@ static void hexout(char *out, const void *p, size_t n, size_t reported) {
 
 static void do_op(op_t *o, char *out) {
     const char *f = o->name;
-    char kb[16], vb[16];
+    char kb[16], vb[VB], cb[64]; (void) cb;
     if (!strcmp(kind, "vector")) {
         qvector_t *v = cont; int32_t x = (int32_t) o->a, y = (int32_t) o->b;
         if (!strcmp(f, "addlast")) res(out, "%d", v->addlast(v, &x));
@@ -202,7 +227,7 @@ static void do_op(op_t *o, char *out) {
         else if (!strcmp(f, "toarray")) { n = 0; void *a = l->toarray(l, &n); if (!a) res(out, "null:%zu", n); else { hexout(out, a, n, n); free(a); } }
         else if (!strcmp(f, "tostring")) { char *s = l->tostring(l); if (!s) res(out, "null"); else { res(out, "str:%s", s); free(s); } }
         else res(out, "bad-op");
-        if (isp) { if (p) { res(out, "%s", p); free(p); } else res(out, "null"); }
+        if (isp) { if (p) { res(out, "%s", canon(p, cb)); free(p); } else res(out, "null"); }
     } else {
         kstr(o->a, kb); vstr(o->b, vb);
         char *p = NULL; int isp = 0;
@@ -234,9 +259,13 @@ static void do_op(op_t *o, char *out) {
             else if (!strcmp(f, "remove")) res(out, "%d", t->remove(t, kb));
             else if (!strcmp(f, "clear")) { t->clear(t); res(out, "void"); }
             else if (!strcmp(f, "min")) { p = t->find_min(t, NULL); isp = 1; }
+            else if (!strcmp(f, "nearest")) {
+                qtreetbl_obj_t ob = t->find_nearest(t, kb, strlen(kb) + 1, true);
+                free(ob.name); p = ob.data; isp = 1;
+            }
             else res(out, "bad-op");
         } else res(out, "bad-kind");
-        if (isp) { if (p) { res(out, "%s", p); free(p); } else res(out, "null"); }
+        if (isp) { if (p) { res(out, "%s", canon(p, cb)); free(p); } else res(out, "null"); }
     }
 }
 
@@ -261,7 +290,7 @@ static void *worker(void *arg) {
 
 /* ------------------------------------------------------------------ setup, final content */
 static void make_container(int init, int range, int opt, int max) {
-    char kb[16], vb[16];
+    char kb[16], vb[VB], cb[64]; (void) cb;
     if (!strcmp(kind, "vector")) {
         qvector_t *v = qvector(0, 4, QVECTOR_THREADSAFE | (opt ? opt : QVECTOR_RESIZE_DOUBLE));
         for (int i = 0; i < init; i++) { int32_t x = 100 + i; v->addlast(v, &x); }
@@ -308,20 +337,20 @@ static void final_content(void) {
         printf("%zu/%zu/%zu", l->num, cnt, l->datasum == sum ? (size_t) 1 : (size_t) 0);
         cnt = 0;
         for (qlist_obj_t *o = l->first; o && cnt < 100; o = o->next, cnt++) {
-            if (ints && o->size == sizeof(int64_t)) printf(",%lld", (long long) *(int64_t *) o->data); else printf(",%s", (char *) o->data);
+            if (ints && o->size == sizeof(int64_t)) printf(",%lld", (long long) *(int64_t *) o->data); else { char cb[64]; printf(",%s", canon((char *) o->data, cb)); }
         }
     } else if (!strcmp(kind, "hashtbl")) {
         qhashtbl_t *t = cont; printf("%zu", t->num);
-        for (size_t i = 0; i < t->range; i++) for (qhashtbl_obj_t *o = t->slots[i]; o; o = o->next) printf(",%s=%s", o->name, (char *) o->data);
+        for (size_t i = 0; i < t->range; i++) for (qhashtbl_obj_t *o = t->slots[i]; o; o = o->next) { char cb[64]; printf(",%s=%s", o->name, canon((char *) o->data, cb)); }
     } else if (!strcmp(kind, "listtbl")) {
         qlisttbl_t *t = cont; printf("%zu", t->num);
         size_t cnt = 0;
-        for (qlisttbl_obj_t *o = t->first; o && cnt < 100; o = o->next, cnt++) printf(",%s=%s", o->name, (char *) o->data);
+        for (qlisttbl_obj_t *o = t->first; o && cnt < 100; o = o->next, cnt++) { char cb[64]; printf(",%s=%s", o->name, canon((char *) o->data, cb)); }
     } else if (!strcmp(kind, "treetbl")) {
         qtreetbl_t *t = cont; printf("%zu/%d", t->num, qtreetbl_check(t));
         qtreetbl_obj_t o; memset(&o, 0, sizeof(o));
         int cnt = 0;
-        while (t->getnext(t, &o, false) && cnt++ < 100) printf(",%s=%s", (char *) o.name, (char *) o.data);
+        while (t->getnext(t, &o, false) && cnt++ < 100) { char cb[64]; printf(",%s=%s", (char *) o.name, canon((char *) o.data, cb)); }
     }
 }
 
@@ -359,7 +388,7 @@ int main(void) {
         if (nw == 0) continue;
         kind = w[0];
         int init = 0, range = 3, opt = 0, max = 0, bad = 0, reps = 1;
-        nthreads = 0; nprefix = 0; freerun = 0; ints = 0;
+        nthreads = 0; nprefix = 0; freerun = 0; ints = 0; big = 0;
         for (int t = 0; t < MAXT; t++) nops[t] = 0;
         for (int i = 1; i < nw; i++) {
             char *eq = strchr(w[i], '='); if (!eq) { bad = 1; break; }
@@ -369,6 +398,7 @@ int main(void) {
             else if (!strcmp(w[i], "opt")) opt = !strcmp(v, "unique") ? QLISTTBL_UNIQUE : atoi(v);
             else if (!strcmp(w[i], "max")) max = atoi(v);
             else if (!strcmp(w[i], "ints")) ints = atoi(v);
+            else if (!strcmp(w[i], "big")) big = atoi(v);
             else if (!strcmp(w[i], "free")) freerun = atoi(v);
             else if (!strcmp(w[i], "reps")) reps = atoi(v);
             else if (w[i][0] == 't' && w[i][1] >= '0' && w[i][1] < '0' + MAXT && !w[i][2]) {
